@@ -368,6 +368,8 @@ def compare_obs(impl_o, model_s, ntypes, nctx):
             elif not is_interleaving(impl_o[f"rp{key}"], ints(m.get(f"rm{key}", "")), ints(m.get(f"rs{key}", ""))) and not (
                     (m.get(f"fragile{u}") == "true" or m.get("incomplete", "") != "") and impl_o[f"rp{key}"] == ints(m.get(f"rm{key}", ""))):
                 diffs.append(f"rp{key}: impl {impl_o[f'rp{key}']} not an interleaving of model mem {m.get(f'rm{key}')} / seg {m.get(f'rs{key}')}")
+    if m.get("walorder", ""):
+        diffs.append(f"the WAL thread's write/rotate order contradicts the model (entries_written vs cap): {m.get('walorder')}")
     if "0" in m.get("bok", "").split(","):
         diffs.append(f"a compaction batch is not one the modelled policy can produce: bok={m.get('bok')}")
     if impl_o["dirs"] != sorted(ints(m.get("dirs", ""))):
